@@ -6,7 +6,7 @@ package quic
 // Conn that has no loop, no endpoint and no peer) whose input pipe already holds data, delivered through the
 // real handleData path (flow-control accounting, pipe.writeAt, rangeset.add). With fin the stream's final size
 // is len(data), so reads past the data return io.EOF; without fin such a read would block forever.
-// Only the read side may be used (Read, ReadByte); len(data) must stay below the 1<<20 default windows/8 so
+// Only the read side carries data (Read, ReadByte, CloseRead); len(data) must stay below the 1<<20 default windows/8 so
 // that no MAX_DATA / MAX_STREAM_DATA update is ever scheduled on the (absent) conn loop.
 func VerifLoadedStream(data []byte, fin bool) *Stream {
 	c := &Conn{side: serverSide, config: &Config{}}
@@ -15,6 +15,7 @@ func VerifLoadedStream(data []byte, fin bool) *Stream {
 	s.inmaxbuf = c.config.maxStreamReadBufferSize()
 	s.inwin = s.inmaxbuf
 	s.inUnlock()
+	s.outUnlock() // the send side stays empty; unlocked so that Reset/CloseWrite (http3 error handling) do not block
 	if err := s.handleData(0, data, fin); err != nil {
 		panic(err)
 	}
